@@ -29,3 +29,28 @@ Definition cobs_eqb (a b : cobs) : bool :=
   Z.eqb v1 v2 && Z.eqb m1 m2 && hl_eqb d1 d2 && hl_eqb s1 s2 && hl_eqb x1 x2 &&
   list_eqb (prod_eqb Z.eqb Z.eqb) n1 n2.
 Definition ctrace_eqb := list_eqb cobs_eqb.
+
+(* --- per transaction step: all reports of the step are delivered in order --- *)
+Fixpoint ins_sorted (x : Z * H) (l : list (Z * H)) : list (Z * H) :=
+  match l with
+  | [] => [x]
+  | y :: r => if Z.ltb (fst x) (fst y) || (Z.eqb (fst x) (fst y) && Z.leb (snd x) (snd y)) then x :: l
+              else y :: ins_sorted x r
+  end.
+Definition sort_notifs (l : list (Z * H)) : list (Z * H) := fold_right ins_sorted [] l.
+
+Fixpoint deliver (c : cmdib) (rs : list report) : cmdib * list (Z * H) :=
+  match rs with
+  | [] => (c, [])
+  | r :: rest => let '(c1, ns) := receive c r in let '(c2, ns2) := deliver c1 rest in (c2, ns ++ ns2)
+  end.
+
+Fixpoint crun_steps (u : list H) (c : cmdib) (steps : list (list report)) : list cobs :=
+  match steps with
+  | [] => []
+  | rs :: rest =>
+      let '(c', ns) := deliver c rs in
+      (cm_ver c', mode_code (cm_mode c'), delta enc_d (cm_descrs c) (cm_descrs c') u,
+       delta enc_s (cm_states c) (cm_states c') u, delta enc_c (cm_cstates c) (cm_cstates c') u, sort_notifs ns)
+      :: crun_steps u c' rest
+  end.
